@@ -1,6 +1,7 @@
 package c13
 
 import (
+	"bytes"
 	"errors"
 	"fmt"
 	"io"
@@ -38,7 +39,7 @@ type Case struct {
 	Retry     bool           `json:"retry,omitempty"` // Rows access: after the error a second reader of the same File reads the page again
 }
 
-var accesses = []string{"Rows", "Reader", "Pages", "Rows+seek", "Reader+seek", "Pages+seek", "Rows+seek", "Pages+seek"}
+var accesses = []string{"Rows", "Reader", "Pages", "Rows+seek", "Reader+seek", "Pages+seek", "Rows+seek", "Pages+seek", "WriteRowGroup"}
 
 func genCase(t *rapid.T) Case {
 	var c Case
@@ -373,6 +374,55 @@ func runCase(c Case, o *kit.Obs) *kit.Failure {
 				readErr = fmt.Errorf("no progress")
 				break
 			}
+		}
+	case "WriteRowGroup":
+		// the corrupted row group is copied into another file (verbatim when the configuration
+		// matches, re-encoded when the codec differs): the copy fails, or whoever reads the copy
+		// gets the error or the true rows
+		dst := c.Opts
+		if c.Batch%2 == 0 {
+			dst.Codec = map[string]string{"": "zstd", "zstd": "snappy"}[dst.Codec]
+			if dst.Codec == "" {
+				dst.Codec = "zstd"
+			}
+		}
+		var out bytes.Buffer
+		w := parquet.NewWriter(&out, append([]parquet.WriterOption{pq.BuildSchema(&c.Schema)}, pq.Options(dst, cols, "")...)...)
+		_, werr := w.WriteRowGroup(f.RowGroups()[gi])
+		cerr := w.Close()
+		switch {
+		case werr != nil:
+			readErr = werr
+		case cerr != nil:
+			readErr = cerr
+		default:
+			f2, err := pq.Open(out.Bytes())
+			if err != nil {
+				readErr = err
+				break
+			}
+			r := parquet.NewReader(f2)
+			got, err := pq.ReadAllRows(r, 64)
+			r.Close()
+			for j := range got {
+				s, serr := pq.Streams(cols, got[j:j+1])
+				if serr != nil || int64(j) >= rgRows {
+					return kit.Failf("c13/altered-data"+feat, "the copy of the corrupted row group holds a malformed or surplus row (%v)", serr)
+				}
+				if d := pq.DiffStreams(cols, wantRows[rgBase+int64(j)], s); d != "" {
+					return kit.Failf("c13/altered-data"+feat, "WriteRowGroup of the corrupted row group reported no error and row %d of the copy reads back altered: %s", j, d)
+				}
+			}
+			delivered = len(got)
+			if err == nil && int64(len(got)) != rgRows {
+				return kit.Failf("c13/altered-data"+feat, "WriteRowGroup of the corrupted row group reported no error and the copy holds %d of its %d rows", len(got), rgRows)
+			}
+			if err == nil && touched {
+				// every row is there and correct: only possible if the fault did not change any value
+				// (e.g. padding bits); the CRC said otherwise, so the copy must have carried the fault
+				return kit.Failf("c13/corruption-not-reported"+feat, "WriteRowGroup copied a row group with a corrupted page and neither the copy nor reading it reported anything")
+			}
+			readErr = err
 		}
 	default: // Pages
 		p := f.RowGroups()[gi].ColumnChunks()[ci].Pages()
